@@ -138,6 +138,38 @@ def r04_4(run, model, mir):
             ctrl += 1
     run.ob("R04.4", "pipeline::{separate,packages}|no unwrap/expect", bad == 0, None, f"{bad} unwrap/expect sites in the zone; {ctrl} elsewhere in the compiler (control)")
     run.floor("positive control: unwrap/expect sites recognised elsewhere", ctrl, 3)
+    # functions of the zone (and closures are followed by name) whose result is a CompilationError built the accepted way
+    makers = {"compile_error"}
+    for rel in zone + ("crates/compiler/src/pipeline/mod.rs", "crates/compiler/src/pipeline/pipeline.rs"):
+        try:
+            for g in model.fns(rel):
+                rt = g.node.get("ret")
+                if rt and re.fullmatch(r"(crate::pipeline::pipeline::)?CompilationError", S.norm_ws(str(rt))):
+                    makers.add(g.name)
+        except Exception:
+            pass
+
+    def err_value_ok(e, depth=0):
+        """an expression that denotes a CompilationError carrying a diagnostic"""
+        if depth > 4:
+            return False
+        k = e["k"]
+        if k in ("Paren", "Reference"):
+            return err_value_ok(e["expr"], depth + 1)
+        if k == "Path" and len(e["segs"]) == 1:
+            return True  # an error value received from a callee (`err`, `e`)
+        if k in ("Call", "MethodCall") and S.callee_name(e) in makers:
+            return True
+        if k == "Struct" and e["segs"][0] == "CompilationError":
+            return any(fl["name"] == "diagnostics" for fl in e["fields"])
+        if k == "Match":
+            return all(err_value_ok(a["body"], depth + 1) for a in e["arms"])
+        if k == "If":
+            return e.get("else") is not None and err_value_ok(e["then"], depth + 1) and err_value_ok(e["else"], depth + 1)
+        if k == "Block":
+            st = e.get("stmts") or []
+            return bool(st) and err_value_ok(st[-1].get("expr") or st[-1], depth + 1)
+        return False
     n = 0
     for rel in zone:
         for f in model.fns(rel):
@@ -149,7 +181,7 @@ def r04_4(run, model, mir):
                 n += 1
                 a = c["args"][0]
                 t = S.norm_ws(run.facts.text(rel, a["sp"]))
-                ok = t.startswith("compile_error(") or t.startswith("CompilationError::Typer{diagnostics") or t.startswith("CompilationError::Compile{diagnostics") or t in ("err", "e")
+                ok = err_value_ok(a)
                 run.ob("R04.4", f"{f.qual}|Err carries a diagnostic", ok, site(rel, c["sp"]), f"Err({t[:60]})")
     run.floor("Err constructions in the package/artifact layer", n, 15)
     ce = [f for f in model.fns() if f.name == "compile_error" and f.file.startswith("crates/compiler/src/pipeline")]
